@@ -149,7 +149,7 @@ fn gen_history(rng: &mut Rng, pool: &[Pfx], src: Src, rec: &mut Recorder) -> (us
         // one MP family per half must hold; regenerate the rare invalid mix
         if encode_update(&u).is_err() { u.wd.clear(); }
         if rng.chance(1, 10) {
-            let k = rng.range(1, 5) as u8;
+            let k = rng.range(1, 6) as u8;
             if corrupt_applicable(&u, k) { u.corrupt = k; rec.bump(&format!("corrupt-kind-{k}")); }
         }
         rec.bump(if u.corrupt != 0 { "ev-malformed" } else if u.ann.is_empty() && u.wd.is_empty() { "ev-empty-update" } else if u.ann.is_empty() { "ev-withdraw-only" } else if u.wd.is_empty() { "ev-announce-only" } else { "ev-both" });
